@@ -59,8 +59,10 @@ theorem runCallee_shape (P : Params) (m' : Machine) (f : Frame) (parents : List 
   · split
     · exact finish_shape _ _ _ _ _ _ _ _ _ _ (Nat.zero_le _)
     · split
-      · exact finish_shape _ _ _ _ _ _ _ _ _ _ (Nat.sub_le _ _)
-      · exact finish_shape _ _ _ _ _ _ _ _ _ _ (Nat.sub_le _ _)
+      · exact finish_shape _ _ _ _ _ _ _ _ _ _ (Nat.zero_le _)
+      · split
+        · exact finish_shape _ _ _ _ _ _ _ _ _ _ (Nat.sub_le _ _)
+        · exact finish_shape _ _ _ _ _ _ _ _ _ _ (Nat.sub_le _ _)
   · exact finish_shape _ _ _ _ _ _ _ _ _ _ (Nat.le_refl _)
 
 theorem enter_shape (P : Params) (m : Machine) (k : Kind) (gas : Nat) (value canT : Bool) (callee : Callee) :
